@@ -36,6 +36,8 @@ type Step struct {
 	Kind    string `json:"kind,omitempty"`    // query mutation subscription subfail invalid
 	Src     int    `json:"src,omitempty"`     // ev/end: the operation (ordinal of its start frame) whose source is meant
 	Variant int    `json:"variant,omitempty"` // spelling variant of malformed / unknown / startbad / invalid
+	Ms      int    `json:"ms,omitempty"`      // idle: how long the client does nothing (keep-alive ticker family, ticker.go)
+	Form    int    `json:"form,omitempty"`    // start: how the document names its operation (forms.go: formNames); 0 = one anonymous operation
 }
 
 type Session struct {
@@ -59,6 +61,9 @@ func (s Step) String() string {
 			if s.Async > 0 && s.Big == 0 {
 				return fmt.Sprintf("start(%d,%s,async%d)", s.ID, s.Kind, s.Async)
 			}
+			if s.Form > 0 && formApplies(s) {
+				return fmt.Sprintf("start(%d,%s,%s)", s.ID, s.Kind, formNames[s.Form%len(formNames)])
+			}
 			return fmt.Sprintf("start(%d,%s)", s.ID, s.Kind)
 		case "startbad", "stop":
 			return fmt.Sprintf("%s(%d)", s.F, s.ID)
@@ -66,6 +71,8 @@ func (s Step) String() string {
 		return s.F
 	case "ev", "end", "flood":
 		return fmt.Sprintf("%s(%d)", s.Op, s.Src)
+	case "idle":
+		return fmt.Sprintf("idle(%dms)", s.Ms)
 	}
 	return s.Op
 }
@@ -180,6 +187,7 @@ func (l *live) snapshot() (wire []WFrame, execs []ExecRec) {
 
 // world is one API instance behind one loopback server; sessions on a world run one at a time.
 type world struct {
+	idx int
 	api *apifu.API
 	ts  *httptest.Server
 	url string
@@ -260,6 +268,7 @@ func newWorld() *world {
 			return nil, fmt.Errorf("subscriptions are not supported using this protocol")
 		}})
 	addAsyncFields(cfg, w, record)
+	addNoStreamFields(cfg, record)
 	pad := strings.Repeat("x", 1024)
 	cfg.AddSubscription("big", &graphql.FieldDefinition{Type: graphql.StringType,
 		Arguments: map[string]*graphql.InputValueDefinition{"tag": {Type: graphql.IntType}, "kb": {Type: graphql.IntType}},
@@ -304,11 +313,23 @@ func newWorld() *world {
 }
 
 func (w *world) close() {
-	w.api.CloseHijackedConnections()
-	w.ts.Close()
+	done := make(chan struct{})
+	go func() {
+		w.api.CloseHijackedConnections()
+		w.ts.Close()
+		close(done)
+	}()
+	select {
+	case <-done:
+	case <-time.After(3 * time.Second): // a broken implementation may block here for ever; the process is about to exit
+	}
 }
 
 // registryLen reads len(api.graphqlWSConnections) under its mutex (unexported; -1 if the fields moved).
+// The mutex is only ever held for a few instructions; if it cannot be had within 100 ms some
+// goroutine died or blocked while holding it (every later upgrade, close and deregistration on this
+// API then blocks for ever): registryStuck is returned — "not deregistered", without the harness
+// joining the queue of the blocked.
 func registryLen(api *apifu.API) int {
 	v := reflect.ValueOf(api).Elem()
 	mu := v.FieldByName("graphqlWSConnectionsMutex")
@@ -317,10 +338,17 @@ func registryLen(api *apifu.API) int {
 		return -1
 	}
 	mp := (*sync.Mutex)(unsafe.Pointer(mu.UnsafeAddr()))
-	mp.Lock()
+	for t0 := time.Now(); !mp.TryLock(); {
+		if time.Since(t0) > 100*time.Millisecond {
+			return registryStuck
+		}
+		time.Sleep(50 * time.Microsecond)
+	}
 	defer mp.Unlock()
 	return m.Len()
 }
+
+const registryStuck = 1 << 30
 
 // ---- wire syntax ------------------------------------------------------------------------------------
 
@@ -363,6 +391,12 @@ func docFor(kind string, gen, variant, big int) string {
 
 // frameBytes spells a client frame. gen is the ordinal of this start frame.
 func frameBytes(proto string, st Step, gen int, ids *idCodec) []byte {
+	return frameBytesAt(proto, st, gen, ids, false)
+}
+
+// idFree: no entry of the server's subscriptions map holds st.ID when this frame is handled (only
+// then is a subscription document that selects nothing answered like any other unexecutable one).
+func frameBytesAt(proto string, st Step, gen int, ids *idCodec, idFree bool) []byte {
 	startT, stopT := "start", "stop"
 	if proto == "tws" {
 		startT, stopT = "subscribe", "complete"
@@ -381,8 +415,16 @@ func frameBytes(proto string, st Step, gen int, ids *idCodec) []byte {
 		if st.Async > 0 && st.Big == 0 && (st.Kind == "query" || st.Kind == "mutation" || st.Kind == "subscription") {
 			doc = asyncDoc(st.Kind, gen, st.Async)
 		}
+		extra := ""
+		if st.Form > 0 && formApplies(st) {
+			doc, extra = formDoc(st.Kind, gen, st.Form)
+		} else if st.Kind == "invalid" && st.Big == 0 && st.Async == 0 {
+			if d, e, ok := nothingSelectedDoc(gen, st.Variant, idFree); ok {
+				doc, extra = d, e
+			}
+		}
 		q, _ := json.Marshal(doc)
-		return []byte(`{` + idPart + `"type":"` + startT + `","payload":{"query":` + string(q) + `}}`)
+		return []byte(`{` + idPart + `"type":"` + startT + `","payload":{"query":` + string(q) + extra + `}}`)
 	case "startbad":
 		return []byte(`{` + idPart + `"type":"` + startT + `","payload":` + badPayloads[st.Variant%len(badPayloads)] + `}`)
 	case "stop":
@@ -658,7 +700,8 @@ func (p *player) sync() {
 
 func (p *player) send(st Step) {
 	gen := p.sp.nextGen
-	b := frameBytes(p.sess.Proto, st, gen, p.ids)
+	_, busy := p.sp.active[st.ID]
+	b := frameBytesAt(p.sess.Proto, st, gen, p.ids, !busy)
 	if st.F == "close" {
 		p.conn.WriteControl(websocket.CloseMessage, websocket.FormatCloseMessage(websocket.CloseNormalClosure, "bye"), time.Now().Add(5*time.Second))
 	} else {
@@ -779,6 +822,9 @@ func (p *player) play() {
 			continue
 		}
 		switch st.Op {
+		case "idle":
+			time.Sleep(time.Duration(st.Ms) * time.Millisecond)
+			p.stats["idle-steps"]++
 		case "flood":
 			p.flood(st)
 		case "resume":
@@ -1110,6 +1156,9 @@ func runConn(w *world, sess Session, deadline time.Duration, k int, grp *group) 
 	obs.Dereg = n <= 0
 	if n < 0 {
 		p.stats["registry-not-readable"]++
+	}
+	if n == registryStuck {
+		p.anom = append(p.anom, "the registry mutex of the API is held for good: a goroutine died or blocked inside ServeGraphQLWS / CloseHijackedConnections / HandleClose while holding it")
 	}
 	obs.Wire, obs.Execs = l.snapshot()
 	l.mu.Lock()
